@@ -57,6 +57,8 @@ const (
 /u<joe> "bought"@[2016-01-01T00:00:00-08:00] /c<mini>
 /u<joe> "bought"@[2016-02-01T00:00:00-08:00] /c<tesla>
 /u<bob> "likes"@[] /u<amy>
+/u<ann> "parent_of"@[] /u<mary>
+/u<ann> "parent_of"@[] /u<peter>
 /u<bob> "weight"@[] "80"^^type:int64`
 	dataH = `/u<amy> "parent_of"@[] /u<zoe>
 /u<zoe> "height"@[] "99"^^type:int64`
@@ -156,6 +158,13 @@ var corpus = []stmt{
 	// the same two-clause query through the memoization layer (miss path, context cancellation by the errgroup)
 	{ID: "Q24", Kind: "select", Text: `select ?s, ?p, ?o from ?g where {?s "height"@[] ?n . ?s ?p ?o};`, Memo: true},
 	{ID: "Q25", Kind: "select", Text: `select ?o, ?c from ?g where {/u<joe> "parent_of"@[] ?o . ?o "parent_of"@[] ?c};`, Memo: true, Chan: 1},
+	// every other per-row lookup kind through the memoization layer (each lookup method of the
+	// layer has its own copy of the cancellation / drain code): PO Subjects, SO
+	// PredicatesForSubjectAndObject, O TriplesForObject, P+anchor binding TriplesForSubject
+	{ID: "Q28", Kind: "select", Text: `select ?o, ?u from ?g where {/u<joe> "parent_of"@[] ?o . ?u "parent_of"@[] ?o};`, Memo: true},
+	{ID: "Q29", Kind: "select", Text: `select ?o, ?p from ?g where {/u<joe> "parent_of"@[] ?o . /u<joe> ?p ?o};`, Memo: true},
+	{ID: "Q30", Kind: "select", Text: `select ?o, ?x, ?p from ?g where {/u<joe> "parent_of"@[] ?o . ?x ?p ?o};`, Memo: true, Chan: 1},
+	{ID: "Q31", Kind: "select", Text: `select ?s, ?n, ?o from ?g where {?s "height"@[] ?n . ?o "parent_of"@[] ?s};`, Memo: true, Procs: 4},
 	// the per-row lookups behind a semaphore of weight 1 (Acquire blocks and is released by cancellation) and with buffered result channels
 	{ID: "Q26", Kind: "select", Text: `select ?s, ?p, ?o from ?g where {?s "height"@[] ?n . ?s ?p ?o};`, Procs: 1},
 	{ID: "Q27", Kind: "select", Text: `select ?o, ?c from ?g where {/u<joe> "parent_of"@[] ?o . ?o "parent_of"@[] ?c};`, Chan: 2, Procs: 4},
